@@ -6,7 +6,7 @@ package fingerproxy
 // server's read deadline passes - after every byte offset of the TLS ClientHello and of an HTTP/1.1
 // request (with a body, and a pipelined second request); whatever the offset, the connection is
 // closed, every goroutine serving it ends (the accept loops of the two servers remain), nothing
-// panics, and a request is forwarded to the backend only if it arrived completely.
+// panics, and a request is forwarded to the backend exactly when its header arrived completely.
 
 import (
 	"context"
@@ -49,7 +49,9 @@ func VerifE2E_h1_cuts() {
 	base := vLiveThreads() // accept loops and shutdown watcher of the idle server
 
 	cut := vRange("cut", 0, len(wire))
-	silent := vBool("clientGoesSilent")
+	// (a stall inside the TLS handshake is cut by the handshake context, which the stubbed handshake
+	// does not model: that clause is C11's proxyserver harness)
+	silent := cut >= len(rec) && vBool("clientGoesSilent")
 	c := newE2EConn()
 	c.feed(wire[:cut])
 	ln.conns <- c
@@ -68,14 +70,15 @@ func VerifE2E_h1_cuts() {
 	}
 	vYield()
 	vReach("connection-over")
-	complete := 0
-	if cut >= len(rec)+len(req1) {
-		complete = 1
+	// forwarding starts when a request's header is complete (the body streams), never before
+	forwarded := 0
+	if cut >= len(rec)+len(req1)-3 {
+		forwarded = 1
 	}
 	if cut >= len(wire) {
-		complete = 2
+		forwarded = 2
 	}
-	vAssert(e2eBackend.n == complete, "only-complete-requests-are-forwarded")
+	vAssert(e2eBackend.n == forwarded, "forwarded-iff-request-header-complete")
 	vAssert(c.closed(), "connection-closed")
 	vAssert(vLiveThreads() == base, "connection-goroutines-ended")
 	cancel()
